@@ -649,7 +649,8 @@ func planFragmentMatches(schema Schema, typeConditionAST *ast.Named, runtime *Ob
 		return true
 	}
 	conditionalType, err := typeFromAST(schema, typeConditionAST)
-	if err != nil {
+	if err != nil || conditionalType == nil {
+		// an unknown type condition (unvalidated document) matches nothing
 		return false
 	}
 	if conditionalType == runtime {
